@@ -932,6 +932,9 @@ def concrete_eval(ctx: Ctx, f: FunctionInfo, e: Optional[ast.AST], env: Dict[str
                 if k is not None and key is not UNKNOWN and ev(k) == key:
                     return FnRef(val) if isinstance(val, (ast.Lambda, ast.Name, ast.Attribute)) else ev(val)
             return UNKNOWN
+        if isinstance(v, dict):  # a scenario record ({"Key": ...})
+            key = ev(e.slice)
+            return v[key] if key is not UNKNOWN and isinstance(key, (str, int)) and key in v else UNKNOWN
         if isinstance(v, (tuple, list, str)) and not isinstance(v, PartialTuple):
             if isinstance(e.slice, ast.Slice):
                 lo = ev(e.slice.lower) if e.slice.lower is not None else None
